@@ -315,6 +315,26 @@ func (eng *Engine) verifyFunction(p *Pkg, key string, ct *Contract) (res *FuncRe
 		}
 	}()
 	fc.prepare()
+	// a loop clause that names a loop the function does not have would be silently ignored: reject it
+	if ct != nil {
+		maxLoop := 0
+		for _, n := range fc.loopOrd {
+			if n > maxLoop {
+				maxLoop = n
+			}
+		}
+		check := func(n int, what string) {
+			if n < 1 || n > maxLoop {
+				panic(unsupportedErr{fmt.Sprintf("contract names loop %d (%s) but the function has %d loops", n, what, maxLoop)})
+			}
+		}
+		for n := range ct.LoopInv {
+			check(n, "invariant")
+		}
+		for n := range ct.LoopDec {
+			check(n, "decreases")
+		}
+	}
 	fc.addAxioms()
 	st := &State{vars: map[types.Object]Val{}, heap: map[string]string{}, locks: map[string]string{}, known: map[string]bool{}, closures: map[string]*closure{}}
 	fc.smt.declare("top0", "(declare-const top0 Int)")
